@@ -20,8 +20,11 @@ ClassRec(c) ==
     LET P == ParOf(c) IN
     [cls |-> "len", len |-> c.len, combo |-> c.combo, win |-> Params.win,
      b |-> DescSeq("b", c.len, P), t |-> DescSeq("t", c.len, P), s |-> DescSeq("s", c.len, P),
-     m |-> DescSeq("m", c.len, P), a |-> DescSeq("a", c.len, P), c |-> DescSeq("c", c.len, P)]
+     m |-> DescSeq("m", c.len, P), a |-> DescSeq("a", c.len, P), c |-> DescSeq("c", c.len, P),
+     o |-> DescSeq("o", c.len, P), p |-> DescSeq("p", c.len, P), u |-> DescSeq("u", c.len, P)]
 RawRec == [cls |-> "raw", raw |-> Params.raw, r |-> RawSeq(Params.raw)]
+(* the overflow value tables: the harness takes the bytes from here *)
+OvalRec == [cls |-> "ovals", v4 |-> OVals4, v8 |-> OVals8]
 
 (* binding of the harness' apply(): the results of Apply computed HERE for one test      *)
 (* encoding (70 bytes: beyond the window limit) under every descriptor of its class;     *)
@@ -31,17 +34,18 @@ ApplyPar == [win |-> Params.win, combo |-> "class", raw |-> 1]
 ApplyDescs ==
     DescSeq("b", 70, ApplyPar) \o DescSeq("t", 70, ApplyPar) \o DescSeq("s", 70, ApplyPar) \o
     DescSeq("m", 70, ApplyPar) \o DescSeq("a", 70, ApplyPar) \o DescSeq("c", 70, ApplyPar) \o
+    DescSeq("o", 70, ApplyPar) \o DescSeq("p", 70, ApplyPar) \o DescSeq("u", 70, ApplyPar) \o
     << <<"r">>, <<"r", 0>>, <<"r", 255, 1>>, <<"r", 1, 2, 3>> >>
 ApplyRec == [cls |-> "apply", enc |-> TestEnc,
              cases |-> [j \in 1..Len(ApplyDescs) |-> [d |-> ApplyDescs[j], out |-> Apply(TestEnc, ApplyDescs[j])]]]
 
 Init == cls = 0 /\ TallyInit
-Next == cls <= N + 1 /\ cls' = cls + 1 /\ UNCHANGED tally
+Next == cls <= N + 2 /\ cls' = cls + 1 /\ UNCHANGED tally
 Spec == Init /\ [][Next]_<<cls, tally>>
 
 (* the counts the trace specification will demand are the counts emitted here *)
 Consistent(c) ==
-    \A kind \in {"b", "t", "s", "m", "a", "c"} :
+    \A kind \in {"b", "t", "s", "m", "a", "c", "o", "p", "u"} :
         Len(DescSeq(kind, c.len, ParOf(c))) = NumDesc(kind, c.len, ParOf(c))
 
 Emit ==
@@ -49,4 +53,5 @@ Emit ==
                        /\ PrintT(<<"REPLAY", ToJson(ClassRec(Classes[cls]))>>)
     /\ cls = N + 1 => PrintT(<<"REPLAY", ToJson(RawRec)>>)
     /\ cls = N + 2 => PrintT(<<"REPLAY", ToJson(ApplyRec)>>)
+    /\ cls = N + 3 => PrintT(<<"REPLAY", ToJson(OvalRec)>>)
 =============================================================================
